@@ -573,11 +573,16 @@ def _eval_set_property(chk, rid, m):
 
     n = 0
     bad = []
-    for name, normalize, replace, prio in ((x, nz, rp_, pr) for x in ('a', 'A', 'b', 'new') for nz in (True, False) for rp_ in (True, False) for pr in ('', 'important')):
+    for name, normalize, replace, prio, as_object in ((x, nz, rp_, pr, ob) for ob in (False, True) for x in ('a', 'A', 'b', 'new') for nz in (True, False) for rp_ in (True, False) for pr in ('', 'important')):
         sq = block()
         removed = []
         me = receiver(sq, removed)
-        res = Evaluator(sp, intrinsics={'Property': PropM, 'self._log.warn': me._log.warn}, model_types=(SeqM,), module=m, cls='CSSStyleDeclaration').run(self=me, name=name, value='9', priority=prio, normalize=normalize, replace=replace)
+        ev = Evaluator(sp, intrinsics={'Property': PropM, 'self._log.warn': me._log.warn}, model_types=(SeqM,), module=m, cls='CSSStyleDeclaration')
+        if as_object:
+            # a Property object in place of the name: it carries value and priority itself
+            res = ev.run(self=me, name=PropM(name, '9', prio), normalize=normalize, replace=replace)
+        else:
+            res = ev.run(self=me, name=name, value='9', priority=prio, normalize=normalize, replace=replace)
         n += 1
         before = view(block())
         props = [t for t in before]
@@ -596,7 +601,7 @@ def _eval_set_property(chk, rid, m):
             want = before + [('NEW', '9', prio)]
         got = view(me._seq) if not isinstance(res, Raised) else repr(res)
         if got != want or me._seq._readonly is not True:
-            bad.append(f'setProperty({name!r}, "9", {prio!r}, normalize={normalize}, replace={replace}): {got}, prescribed {want}')
+            bad.append(f'setProperty({"Property(" if as_object else ""}{name!r}, "9", {prio!r}{")" if as_object else ""}, normalize={normalize}, replace={replace}): {got}, prescribed {want}')
     for empty in ('', None):
         sq = block()
         removed = []
